@@ -267,6 +267,26 @@ class PoolAdapter(Adapter):
                     obs["ret"] = h[-n - 1]
                 elif what == "array_high":
                     obs["ret"] = h[np.array([0, n])]
+            elif action == "CollSum":
+                (k,) = args
+                from physt.types import HistogramCollection
+                o[k] = HistogramCollection(o[1], o[2]).sum()
+            elif action == "CollNormBins":
+                (inplace,) = args
+                from physt.types import HistogramCollection
+                col = HistogramCollection(o[1], o[2])
+                res = col.normalize_bins(inplace=inplace)
+                obs["ret"] = {"freq": [np.asarray(h.frequencies, dtype=float).tolist() for h in res.histograms],
+                              "err2": [np.asarray(h.errors2, dtype=float).tolist() for h in res.histograms],
+                              "same": res is col, "members_same": any(a is b for a, b in zip(res.histograms, col.histograms))}
+            elif action == "CollCopyFill":
+                (p_,) = args
+                from physt.types import HistogramCollection
+                col = HistogramCollection(o[1], o[2])
+                c2 = col.copy()
+                c2[0].fill(self.pe.x(p_))
+                c2[1].fill_n([self.pe.x(p_)])
+                obs["ret"] = {"eq_before": None, "n": len(c2), "names": [h.name for h in c2]}
             elif action == "Drop":
                 (k,) = args
                 del o[k]
@@ -400,6 +420,26 @@ class PoolAdapter(Adapter):
             if not ok:
                 bad.append("ret")
                 det["ret"] = {"expected": ([self.pe.x(lo), self.pe.x(hi)], f"{num}/{rec['den']}"), "observed": repr(obs["ret"])}
+        if action == "CollNormBins" and obs["exc"] is None:
+            recs = fmap(pre["pool"])
+            r = obs["ret"]
+            okc = not r["same"] and not r["members_same"]
+            n = len(recs[1]["freq"])
+            for b in range(n):
+                v = [Fraction(recs[i]["freq"][b], recs[i]["den"]) for i in (1, 2)]
+                e = [Fraction(recs[i]["err2"][b], recs[i]["den"] ** 2) for i in (1, 2)]
+                tot = v[0] + v[1]
+                if tot == 0:
+                    continue
+                for i in (0, 1):
+                    want, ewant = float(v[i] / tot), float(e[i] / (tot * tot))
+                    if abs(r["freq"][i][b] - want) > 16 * 2.3e-16 * max(want, 1e-300) or abs(r["err2"][i][b] - ewant) > 16 * 2.3e-16 * max(ewant, 1e-300):
+                        okc = False
+                if abs(r["freq"][0][b] + r["freq"][1][b] - 1) > 1e-12:
+                    okc = False
+            if not okc:
+                bad.append("shares")
+                det["shares"] = {"observed": r}
         pool = fmap(post["pool"])
         live = {i for i, r in pool.items() if "null" not in r}
         if set(real.keys()) != live:
@@ -507,6 +547,8 @@ class PoolAdapter(Adapter):
         if action == "FillHalf":
             r = pool[args[0]]
             return f"FillHalf/{pos_class(r['bins'], args[1])}/{kind(args[0])}"
+        if action in ("CollSum", "CollNormBins", "CollCopyFill"):
+            return f"{action}/{kind(1)}/{kind(2)}"
         if action in ("Copy", "CopyEmpty", "NegRefused", "DivZeroRefused", "SetName", "Drop"):
             return f"{action}/{kind(args[0])}"
         return action
